@@ -40,7 +40,7 @@ def streams(rng, tier):
             ops.append(f"childrenS {gen.hx(h)} {c}")      # the specification-level model the theorems are about
     ops2 = []
     for h in cells + [gen.malformed(rng) for _ in range(300)]:
-        for r in list(range(-1, 17)) + [rng.choice(gen.EXTREME_INTS)]:
+        for r in list(range(-1, 17)) + [rng.choice(gen.EXTREME_INTS), rng.choice(gen.EXTREME_INTS)]:
             ops2 += [f"parent {gen.hx(h)} {r}", f"csize {gen.hx(h)} {r}", f"center {gen.hx(h)} {r}"]
     ops3 = []
     for _ in range(600 if tier == "quick" else 6000):
